@@ -115,7 +115,7 @@ def limits(timeout_s: float) -> dict[str, int]:
 
 def execute(env: ScriptEnv, *, client_retry: int, override_retry: int | None,
             client_timeout: float, override_timeout: float | None,
-            reconfigured_from: tuple[int, float] | None = None) -> dict[str, Any]:
+            reconfigured_from: tuple[int, float] | None = None, via: str = "typed") -> dict[str, Any]:
     """Run one real UDSClient.request() against env; return the trace record.
     reconfigured_from = (max_retry, timeout): the client was constructed with these values, served one
     config-less request, and was then reconfigured by attribute assignment (as `scan uds services` does with
@@ -142,7 +142,7 @@ def execute(env: ScriptEnv, *, client_retry: int, override_retry: int | None,
         if override_retry is not None or override_timeout is not None:
             cfg = UDSRequestConfig(timeout=override_timeout, max_retry=override_retry)
         try:
-            resp = await cl.request(REQ, cfg)
+            resp = await (cl.send_raw(REQ.pdu, cfg) if via == "raw" else cl.request(REQ, cfg))
             out["resp"] = resp
         except BaseException as e:  # noqa: BLE001
             out["exc"] = e
@@ -190,7 +190,8 @@ def execute(env: ScriptEnv, *, client_retry: int, override_retry: int | None,
             "reconnects": reconnects, "timeout_ms": int(tmo * 1000),
             "cfg": {"client_retry": client_retry, "override_retry": override_retry,
                     "client_timeout": client_timeout, "override_timeout": override_timeout,
-                    "reconfigured_from": list(reconfigured_from) if reconfigured_from else None}}
+                    "reconfigured_from": list(reconfigured_from) if reconfigured_from else None,
+                    "via": via}}
 
 
 def script_of(trace: dict[str, Any]) -> list[str]:
@@ -309,7 +310,7 @@ def run(tier: str, seed: int) -> Report:
     seen: set[str] = set()
 
     def add(t: dict[str, Any], origin: str) -> None:
-        key = json.dumps([t["R"], t["timeout_ms"], t["seq"]])
+        key = json.dumps([t["R"], t["timeout_ms"], t["seq"], t["cfg"].get("via")])
         if key in seen:
             return
         seen.add(key)
@@ -346,6 +347,15 @@ def run(tier: str, seed: int) -> Report:
 
         for _vec, t in explore(runit3, 3 if tier == "quick" else 4):
             add(t, "enum-reconfigured")
+    # the same request handed over as bytes (send_raw): same wire events, same implied outcome
+    for R in (0, 1):
+
+        def runit4(ch: Any, R: int = R) -> dict[str, Any]:
+            return execute(ChoiceEnv(ch), client_retry=R, override_retry=None, client_timeout=2.0,
+                           override_timeout=None, via="raw")
+
+        for _vec, t in explore(runit4, 3 if tier == "quick" else 5):
+            add(t, "enum-raw")
     # ---- 3. long scripts across the limits
     for script, R, ot in long_scripts():
         add(execute(ListEnv(script), client_retry=R, override_retry=None, client_timeout=2.0,
@@ -433,7 +443,8 @@ def replay(path: str) -> int:
         c = d["cfg"]
         t = execute(ListEnv(sc), client_retry=c["client_retry"], override_retry=c["override_retry"],
                     client_timeout=c["client_timeout"], override_timeout=c["override_timeout"],
-                    reconfigured_from=tuple(c["reconfigured_from"]) if c.get("reconfigured_from") else None)
+                    reconfigured_from=tuple(c["reconfigured_from"]) if c.get("reconfigured_from") else None,
+                    via=c.get("via", "typed"))
         verdict = validate([t])[0]
         print(f"replay script={sc[:12]} R={t['R']} outcome={t['outcome']} verdict={verdict}")
         bad += verdict != "ok"
